@@ -46,6 +46,7 @@ type FuncContract struct {
 	Assigns    []string
 	Lets       []*LetDef
 	Ghost      bool // the function updates the ghost handler-error state
+	NoAlloc    bool // proved (or assumed, if trusted) to perform no heap allocation
 	Trusted    bool // contract assumed, body not verified here
 	Sim        string
 	SimOpts    map[string]string
@@ -214,6 +215,8 @@ func (cf *ContractFile) directive(cur **FuncContract, pkg, body, path string, ln
 		}
 	case "ghost":
 		fc.Ghost = true
+	case "noalloc":
+		fc.NoAlloc = true
 	case "requires":
 		c, err := mkClause(rest)
 		if err != nil {
